@@ -327,7 +327,11 @@ def engine_a_check(pid, tier, jobs, required_reach, assumptions, level_note, out
             out.inconclusive.append("%s: %s (x%d)" % (h, k, n))
         for lab in required_reach.get(h, []):
             if lab not in (r.get("reach") or {}):
-                out.engine_errors.append("vacuous harness %s: reach label %r never hit" % (h, lab))
+                if not r["exhaustive"]:
+                    # the exploration was cut by its wall-clock budget (slow or busy machine): nothing can be said
+                    out.inconclusive.append("%s: reach label %r not hit before the exploration budget ran out" % (h, lab))
+                else:
+                    out.engine_errors.append("vacuous harness %s: reach label %r never hit" % (h, lab))
         for lab, rr in (r.get("reach") or {}).items():
             if rr.get("witness") and rr["witness"].get("harness"):
                 reach_w.append((h, lab, rr["witness"]))
